@@ -9,7 +9,9 @@ CONSTANTS
   NS3 = 0
   NSBIG = 0
   NCAP = 0
+  HOF = 0
   MAXD = 1
+  MAXDSLOW = 1
   LEN = 1
   MUTANT = TRUE
 INVARIANTS TypeOK Emit Proto
